@@ -1086,7 +1086,17 @@ fn sample(f: &Form, r: &mut Rng) -> Sample {
     // ---- windows of initial memory handed to the IL run
     for (a, used) in &eas {
         if *used == 1 {
-            if f.class == "bt-mem-reg" { s.ranges.push((a.wrapping_sub(80), 176)); } else { s.ranges.push((a.wrapping_sub(8), 40)); }
+            s.ranges.push((a.wrapping_sub(8), 40));
+            if f.class == "bt-mem-reg" {
+                // the element of the bit string the processor addresses: EA + floor(signed offset / size) * size/8
+                if let (Some(Op::Reg(o)), Some(Op::Mem { asz, .. })) = (f.ops.get(1), f.ops.first()) {
+                    let raw = s.g[*o as usize] & mask(f.sz);
+                    let sv: i64 = if f.sz == 64 { raw as i64 } else if raw >> (f.sz - 1) & 1 == 1 { (raw as i64) - (1i64 << f.sz) } else { raw as i64 };
+                    let idx = sv.div_euclid(f.sz as i64);
+                    let el = a.wrapping_add((idx.wrapping_mul(f.sz as i64 / 8)) as u64) & mask(*asz);
+                    s.ranges.push((el.wrapping_sub(8), 24));
+                }
+            }
         }
     }
     match f.class {
@@ -1201,16 +1211,10 @@ fn run_native(exe: &str, lines: &[String]) -> Vec<Cpu> {
 
 // ---------------------------------------------------------------- known-finding classes (predicates on the input)
 fn kf_tags(f: &Form, s: &Sample) -> Vec<String> {
-    let mut t = vec![];
-    // bt/bts/btr/btc with a memory base and a REGISTER bit offset outside [0, operand size): the processor
-    // addresses a bit string (another memory element), the lifter shifts the addressed element by the raw offset
-    if f.class == "bt-mem-reg" {
-        if let Some(Op::Reg(o)) = f.ops.get(1) {
-            let v = s.g[*o as usize] & mask(f.sz);
-            if v >= f.sz as u64 { t.push("kf:bt-mem-reg-offset-outside-operand".to_string()); }
-        }
-    }
-    if f.class == "nospec-shxd" { t.push("kf:shld-shrd".to_string()); }
+    let t: Vec<String> = vec![];
+    // (no known-finding classes at present: the two classes found in this round -- bt/bts/btr/btc m, r bit-string
+    //  addressing and shld/shrd count masking -- have been repaired by `fix:` commits)
+    let _ = (f, s);
     t
 }
 
